@@ -18,7 +18,8 @@ pub fn run(c: &Case, rep: &mut Report, prop: &str) {
         rep.inconclusive(c, "input-rejected-by-reference-validator");
         return;
     }
-    let out = match end.get("out.emit") {
+    let edited = end.has("out.addimp");
+    let out = match end.get("out.emit").or(end.get("out.addimp")) {
         Some(o) => o,
         None => {
             rep.inconclusive(c, "no-output");
@@ -42,7 +43,15 @@ pub fn run(c: &Case, rep: &mut Report, prop: &str) {
     let r = iso::compare(&din, &dout, None);
     let cat = if prop == "C03" { "code" } else { "struct" };
     let mut seen = std::collections::BTreeSet::new();
-    for p in r.problems.iter().filter(|p| p.cat == cat) {
+    if edited {
+        // the edit added one import of each kind: those (and the type of the new function) are the only additions
+        let added: Vec<&decode::DImport> = dout.imports.iter().filter(|i| i.module == "wv.add").collect();
+        if added.len() != 4 {
+            rep.violation(c, "C04/edit/added-imports-missing", &format!("4 imports were added through the API, the output has {} of them", added.len()), &[("out.wasm", out)]);
+        }
+        rep.count("edited-outputs-compared", 1);
+    }
+    for p in r.problems.iter().filter(|p| p.cat == cat).filter(|p| !(edited && (p.sig.ends_with("-added") || p.sig == "import-name-or-order-differs"))) {
         if seen.insert(p.sig.clone()) {
             rep.violation(c, &format!("{}/{}", prop, p.sig), &p.detail, &[("out.emit.wasm", out)]);
         }
